@@ -147,6 +147,11 @@ def cases(tier, seed):
     for shp in ([2, 3], [3, 1], [1, 4], [2, 3, 2]):
         add("vec.index", dict(shape=shp), "vec")
         add("vec.index", dict(shape=shp, entries="sym"), "vec")
+    # swap with `sys` and `dim` omitted: two equal subsystems; with row_only the number of columns is arbitrary (left multiplication by the swap operator)
+    for d in (2, 3, 4):
+        add("swap.index", dict(rdims=[d, d], sys=[1, 2], row_only=False, all_omitted=True), "swap/all-omitted")
+        for nc in (3, 5, d * d):
+            add("swap.index", dict(rdims=[d, d], sys=[1, 2], row_only=True, all_omitted=True, ncols=nc), "swap/all-omitted-row-only")
     return out
 
 
